@@ -34,7 +34,7 @@ RULE = (
 )
 ASSUMPTIONS = [
     "admissible = order <= 3, leading coefficient >= 0.5, interval strictly inside the transform's domain, increasing map for BVP (solve_bvp needs an increasing mesh), HyperbolicRTransform with b*(number of points-1) < 1 for every array it sees, slope of the map varying by at most a factor 50 over the interval (beyond that SciPy's adaptive error estimates are unreliable next to the branch point of the transformed equation: DOP853 error 0.04 at tol 1e-6 was measured at slope ratio 1700 - a property of the integrator, not of grid)",
-    "solver tolerance: rtol = atol = tol for IVP, tol for BVP. accuracy clause: |error of y^(k)| <= F * tol * scale_k, scale_k = max_{s,t} sum_j |Phi(t,s)|_kj v_j(s): v(s) = local tolerance unit tol*(1+|Y^(j)|) of the variables the solver integrates, mapped to the original variable with the Faa di Bruno matrix of the map (g', g'' obtained numerically from the forward map only), Phi = propagator of the homogeneous equation (own tight SciPy integration in the original variable). F = 100 for BVP, 5000 for IVP (calibrated: largest ratio on the unchanged tree 0.6 / 60; an IVP solver controls the local error only); equivalence 2F; conditions 10",
+    "solver tolerance: rtol = atol = tol for IVP, tol for BVP. accuracy clause: |error of y^(k)| <= F * tol * scale_k, scale_k = max_{s,t} sum_j |Phi(t,s)|_kj v_j(s): v(s) = local tolerance unit tol*(1+|Y^(j)|) of the variables the solver integrates, mapped to the original variable with the Faa di Bruno matrix of the map (g', g'' obtained numerically from the forward map only), Phi = propagator of the homogeneous equation (own tight SciPy integration in the original variable). F = 200 for BVP, 25000 for IVP (calibrated as 100 x the largest ratio seen on the unchanged tree, 1.2 / 248; an IVP solver controls the local error only, the global error grows with the number of steps); equivalence 2F; conditions 10",
     "problems are non-stiff and well conditioned by construction (|a_k/a_K| <~ 2.6, interval length <= 2.5; BVP recipes of DESIGN C15)",
 ]
 LEVEL_TEXT = "Exploration: seeded manufactured problems with exact solutions over the full cross product of kinds, orders, methods, tolerances and transform configurations; held on the executions produced."
@@ -44,11 +44,12 @@ TOLS = [1e-4, 1e-6, 1e-8]
 METHODS = ["RK45", "DOP853", "Radau", "BDF", "LSODA"]
 KM = [1, 2, 3, 2.5]
 # |error| <= factor * tol * scale.  DESIGN starts from 100; calibrated per BUILDING.md (>= 100 x the largest ratio seen on the
-# unchanged tree): BVP (collocation, global residual control) largest ratio seen < 1 -> 100; IVP largest ratio seen 60 (BDF / LSODA /
-# RK45 at tol 1e-8: an adaptive IVP solver bounds the LOCAL error by tol, the global one grows with the number of steps) -> 5000.
-# Seeded breaks give ratios 1e5..1e9 at tol <= 1e-6.
-ACC_FACTOR = {"ivp": 5000.0, "bvp": 100.0}
-EQ_FACTOR = {"ivp": 10000.0, "bvp": 200.0}
+# unchanged tree over quick seeds 0-3 and thorough seeds 0-1): BVP (collocation, global residual control) largest ratio 1.2 -> 200;
+# IVP largest ratio 55 in the quick tier, 248 in the thorough tier (heavy tail: an adaptive IVP solver bounds the LOCAL error by
+# tol, the global error grows with the number of steps; BDF / LSODA / RK45 at tol 1e-8 are the extremes) -> 25000.
+# Every seeded break gives ratios 1e5..1e9 in hundreds of checks at tol <= 1e-6 (selfcheck/c15/RESULTS.md).
+ACC_FACTOR = {"ivp": 25000.0, "bvp": 200.0}
+EQ_FACTOR = {"ivp": 50000.0, "bvp": 400.0}
 NPTS = 24
 RHO_MAX = 50.0  # admissible variation max|g'|/min|g'| of the map over the interval
 
